@@ -11,7 +11,14 @@ COMMON_ASSUME = [
 CHECKS = {}
 
 
+BOTH_PROFILES = (" Every rule runs twice, on the facts of both build profiles (debug assertions and overflow checks on, "
+                 "as the tests build, and both off, as a release build); the observed functions' panic sites are "
+                 "discharged over the property's domain, and an inherent method shadowing an observed trait method must "
+                 "have the identical summary.")
+
+
 def reg(pid, fn, level, explanation, technique, design_ref, assumptions=(), needs_unchecked=False, level_text=""):
+    explanation = explanation + BOTH_PROFILES
     CHECKS[pid] = dict(fn=fn, level=level, explanation=explanation, technique=technique, design_ref=design_ref,
                        assumptions=COMMON_ASSUME + list(assumptions), needs_unchecked=needs_unchecked, level_text=level_text or explanation)
 
